@@ -3,7 +3,8 @@
 (* dumped as one NDJSON file per simulated behaviour (tlc -simulate).  The   *)
 (* kinds of the two invoices are drawn per behaviour; HTLC parameters are    *)
 (* drawn with RandomElement (a few draws per state keep the fan-out small):  *)
-(* mostly from the parameters that can be accepted, otherwise from the whole *)
+(* mostly from the parameters that can be accepted (some of these with an    *)
+(* expiry already below the current height), otherwise from the whole        *)
 (* (bound through a singleton set so that one draw is used consistently);   *)
 (* product (wrong/absent/foreign address, low or mismatching totals, expiry  *)
 (* one block short, bad keysend preimage, bad or foreign AMP shares).        *)
@@ -22,14 +23,26 @@ Ev(a, c, k, p) == [a |-> a, c |-> c, k |-> k, pl |-> p.pl, h |-> p.h, ad |-> p.a
 NoP == [pl |-> "none", h |-> 0, ad |-> 0, amt |-> 0, tot |-> 0, exp |-> 0, set |-> "none", good |-> TRUE]
 Rec(e) == hist' = Append(hist, e)
 
-\* parameters that pass the static checks of the invoice they aim at
-Likely(c) == {p \in Params(c) :
-                /\ p.pl = "mpp" => (p.ad = p.h /\ p.tot >= V /\ inv[p.h].st = "open" /\ Kind(p.h) \notin {"amp", "keysend"})
-                /\ p.pl = "amp" => (p.ad # 0 /\ Kind(p.ad) = "amp" /\ inv[p.ad].st = "open")
-                /\ p.pl = "legacy" => (~NeedAddr(p.h) /\ Kind(p.h) # "amp" /\ inv[p.h].ex /\ inv[p.h].st # "canceled")
-                /\ p.pl = "keysend" => p.good
-                /\ p.exp >= height + Need(IF p.pl = "amp" THEN (IF p.ad = 0 THEN 1 ELSE p.ad) ELSE p.h)}
-Draw(c) == IF Likely(c) # {} /\ RandomElement(1..10) <= 7 THEN RandomElement(Likely(c)) ELSE RandomElement(Params(c))
+\* parameters that pass the static checks of the invoice they aim at (built directly, not filtered out of Params)
+OkExp(k) == {height + Need(k), height + Need(k) + 1}
+Likely(c) ==
+     UNION {{[c |-> c, pl |-> "mpp", h |-> h, ad |-> h, amt |-> a, tot |-> t, exp |-> e, set |-> "none", good |-> TRUE]
+               : a \in Amts, t \in {x \in Tots : x >= V}, e \in OkExp(h)}
+            : h \in {x \in Inv : Kind(x) \notin {"amp", "keysend"} /\ inv[x].st = "open"}}
+  \cup UNION {{[c |-> c, pl |-> "amp", h |-> 0, ad |-> sa[2], amt |-> a, tot |-> t, exp |-> height + Need(sa[2]), set |-> sa[1], good |-> g]
+               : a \in Amts, t \in {x \in Tots : x >= V}, g \in {x \in BOOLEAN : x => c \in Members(sa[1])}}
+            : sa \in Sets \X {x \in Inv : Kind(x) = "amp" /\ inv[x].st = "open"}}
+  \cup UNION {{[c |-> c, pl |-> "legacy", h |-> h, ad |-> 0, amt |-> a, tot |-> 0, exp |-> e, set |-> "none", good |-> TRUE]
+               : a \in Amts, e \in OkExp(h)}
+            : h \in {x \in Inv : ~NeedAddr(x) /\ Kind(x) # "amp" /\ inv[x].ex /\ inv[x].st # "canceled"}}
+  \cup UNION {{[c |-> c, pl |-> "keysend", h |-> h, ad |-> 0, amt |-> a, tot |-> 0, exp |-> e, set |-> "none", good |-> TRUE]
+               : a \in Amts, e \in OkExp(h)}
+            : h \in {x \in Inv : Kind(x) = "keysend"}}
+\* 60% acceptable, 15% acceptable but for an expiry that already lies below the current height, 25% anything
+Draw(c) == LET r == RandomElement(1..20) IN
+           IF Likely(c) # {} /\ r <= 12 THEN RandomElement(Likely(c))
+           ELSE IF Likely(c) # {} /\ r <= 15 THEN [RandomElement(Likely(c)) EXCEPT !.exp = RandomElement(Expired)]
+           ELSE RandomElement(Params(c))
 
 GInit == /\ kinds \in KindPool
          /\ inv = [k \in Inv |-> InitInv(k)]
